@@ -105,6 +105,37 @@ theorem derefFn_leafref (env : Env) (x : Ref) (rest ts : List Ref) (h : env.leaf
   simp only [derefFn, h]
   split <;> rfl
 
+/-! ## a leafref path is a location path -/
+theorem norm_flatMap_rev (env : Env) (ax : Axis) (t : Test) (s : List Ref) :
+    env.norm (s.flatMap fun c => if ax.isReverse = true then (env.candidates ax t c).reverse else env.candidates ax t c) =
+      env.norm (s.flatMap (env.candidates ax t)) := by
+  unfold Env.norm mkNs
+  apply List.filter_congr
+  intro x _
+  simp only [List.contains_eq_mem, List.mem_flatMap, decide_eq_decide]
+  constructor
+  · rintro ⟨c, hc, hx⟩; refine ⟨c, hc, ?_⟩; split at hx <;> simpa using hx
+  · rintro ⟨c, hc, hx⟩; refine ⟨c, hc, ?_⟩; split <;> simpa using hx
+
+/-- a leafref path (`Env.walk`) is evaluated exactly like the same predicate-free location path inside an expression -/
+theorem walk_eq_evalSteps (env : Env) (hq : env.q.predMerged = false) (steps : List (Axis × Test)) :
+    ∀ s, evalSteps (N := N) env (steps.map fun p => .mk p.1 p.2 []) s = .ok (env.walk steps s) := by
+  induction steps with
+  | nil => intro s; rfl
+  | cons p rest ih =>
+    intro s
+    obtain ⟨ax, t⟩ := p
+    simp only [List.map_cons, Env.walk]
+    rw [evalSteps]
+    simp only [hq, Bool.false_eq_true, if_false]
+    have h1 : (fun c => evalPreds (N := N) env [] (if ax.isReverse = true then (env.candidates ax t c).reverse else env.candidates ax t c)) =
+        (fun c => (pure (if ax.isReverse = true then (env.candidates ax t c).reverse else env.candidates ax t c) : Except Err (List Ref))) := by
+      funext c; rw [evalPreds]
+    rw [h1, mapM'_pure]
+    simp only [bind, Except.bind, pure, Except.pure]
+    rw [norm_flatMap_rev]
+    exact ih _
+
 /-! ## canonising comparison -/
 theorem compare_canon_single (env : Env) (hq : env.q.canonStr = true) (x : Ref) (s : Bytes) :
     compare (N := N) env .eq (.ns [x]) (.str s) = (env.strValue x == env.canonFor x s) := by
